@@ -85,6 +85,8 @@ Section Base.
   Qed.
   Lemma bind_get_eq {B} (f : ST -> MM B) s : Bind (get R CS) f s = f s s.
   Proof. unfold bind, get. destruct (f s s) as [[b s2] t2]. reflexivity. Qed.
+  Lemma bind_modify_eq {B} (g : ST -> ST) (f : unit -> MM B) s : Bind (modify R CS g) f s = f tt (g s).
+  Proof. unfold bind, modify. destruct (f tt (g s)) as [[b s2] t2]. reflexivity. Qed.
   Lemma sat_when (F : Rel) b m : good F -> sat F m -> sat F (when R CS b m).
   Proof. intros G H. destruct b; simpl; [exact H | apply sat_ret; exact G]. Qed.
   Lemma sat_iter {A} (F : Rel) (f : A -> MM unit) l :
@@ -312,29 +314,31 @@ Section Base.
 
   (* ---- the top level: _handle_event *)
   Definition T : Rel := fun s ok s' tr =>
-    closes tr + qclose (queue s') + credit s' <= qclose (queue s) + credit s
+    (ok = true -> closes tr + qclose (queue s') + credit s' <= qclose (queue s) + credit s)
+    /\ closes tr <= qclose (queue s) + credit s
     /\ (ok = false -> crashed s' <> None).
   Lemma T_good : good T.
   Proof.
     split; unfold T.
-    - intros; split; [simpl; lia | discriminate].
-    - intros s s1 b s2 t1 t2 [H1 _] [H2 C2]. split; auto. rewrite closes_app; lia.
+    - intros; change (closes []) with 0; repeat split; [intros; lia | lia | discriminate].
+    - intros s s1 b s2 t1 t2 (H1 & _ & _) (H2 & H2' & C2). specialize (H1 eq_refl).
+      rewrite closes_app. repeat split; auto; try lia. intro Hb. specialize (H2 Hb). lia.
   Qed.
   Lemma N_T s b s' t : N 0 s b s' t -> T s b s' t.
-  Proof. intros (H & _ & _ & _ & _ & C). split; auto. lia. Qed.
+  Proof. intros (H & _ & _ & _ & _ & C). repeat split; auto; intros; lia. Qed.
   Lemma sat_N_T {A} (m : MM A) : sat (N 0) m -> sat T m.
   Proof. apply sat_weaken. exact N_T. Qed.
   Lemma modify_T (f : ST -> ST) :
     (forall s, queue (f s) = queue s /\ close_sent (f s) = close_sent s) -> sat T (modify R CS f).
   Proof.
     intros H s. unfold modify; cbn [okv val stt trc fst snd]. destruct (H s) as [Q C].
-    unfold T, credit. rewrite Q, C. split; [simpl; lia | discriminate].
+    unfold T, credit. rewrite Q, C. change (closes []) with 0. repeat split; [intros; lia | lia | discriminate].
   Qed.
 
   (* one replayed event *)
   Definition replay_one (e : event) : MM unit := Bind (emit R CS (TReplay e)) (fun _ => ETOP e).
   Definition N1 (q : list event) : Rel := fun s ok s' tr =>
-    closes tr + qclose (queue s') + credit s' <= qclose (queue s) + credit s + qclose q
+    closes tr + qclose (queue s') + credit s' <= qclose (queue s) + credit s + qclose (replayed tr)
     /\ (exists x, queue s' = queue s ++ x)
     /\ (ok = true -> replayed tr = q)
     /\ (exists rest, q = replayed tr ++ rest)
@@ -357,11 +361,10 @@ Section Base.
       + exists []. reflexivity.
     - eapply sat_bind; [apply replay_one_N1 | intros _; exact IH | |].
       + intros s s1 t1 (H & Q & Rp & [rest Rs] & C). unfold N1. repeat split; auto; try discriminate.
-        * change (e :: q) with ([e] ++ q). rewrite qclose_app. lia.
-        * exists (rest ++ q). rewrite app_assoc, <- Rs. reflexivity.
+        exists (rest ++ q). rewrite app_assoc, <- Rs. reflexivity.
       + intros s s1 b s2 t1 t2 (H1 & [x1 Q1] & Rp1 & _ & _) (H2 & [x2 Q2] & Rp2 & [rest Rs] & C2).
-        unfold N1. rewrite replayed_app, (Rp1 eq_refl). repeat split; auto.
-        * change (e :: q) with ([e] ++ q). rewrite closes_app, qclose_app. lia.
+        unfold N1. rewrite replayed_app, (Rp1 eq_refl) in *. repeat split; auto.
+        * change (e :: replayed t2) with ([e] ++ replayed t2). rewrite closes_app, qclose_app. lia.
         * exists (x1 ++ x2). rewrite Q2, Q1, app_assoc. reflexivity.
         * intros Hb. rewrite (Rp2 Hb). reflexivity.
         * exists rest. simpl. rewrite <- Rs. reflexivity.
@@ -393,9 +396,11 @@ Section Base.
     - generalize (replay_all_N1 (queue s) s). unfold bind.
       destruct (iter R CS replay_one (queue s) s) as [[[u|] s1] t1]; cbn [okv val stt trc fst snd app modify].
       + intros (H & [x Q] & Rp & Rs & C). rewrite app_nil_r. unfold Treplay, T, credit in *. simpl.
-        rewrite Q, qclose_app in H. repeat split; auto; try discriminate. lia.
-      + intros (H & [x Q] & Rp & Rs & C). unfold Treplay, T. rewrite Q, qclose_app in H.
-        repeat split; auto; try discriminate. rewrite Q, qclose_app. lia.
+        rewrite Q, qclose_app, (Rp eq_refl) in H. change (qclose []) with 0.
+        repeat split; auto; try discriminate; lia.
+      + intros (H & [x Q] & Rp & [rest Rs] & C). unfold Treplay, T. rewrite Q, qclose_app in H.
+        assert (qclose (queue s) = qclose (replayed t1) + qclose rest) by (rewrite Rs at 1; apply qclose_app).
+        repeat split; auto; try discriminate; try lia. exists rest; exact Rs.
   Qed.
 
   Lemma handshake_finished_eq err :
@@ -412,7 +417,7 @@ Section Base.
   Lemma emit_T t : (match t with TChild _ => false | _ => true end) = true -> sat T (emit R CS t).
   Proof.
     intros H s. unfold emit; cbn [okv val stt trc fst snd]. unfold T, closes, child_closes.
-    destruct t; try discriminate; simpl; split; try lia; discriminate.
+    destruct t; try discriminate; simpl; repeat split; intros; try lia; discriminate.
   Qed.
 
   Lemma on_handshake_error_T err : sat T (on_handshake_error R CS cf err).
@@ -467,14 +472,17 @@ Section Base.
   Notation STEP := (step R bio_write recv bio_read sendall do_handshake parse_hello CS child cf).
   Notation RUN := (run R bio_write recv bio_read sendall do_handshake parse_hello CS child cf).
 
-  Definition potential (s : ST) : nat := qclose (queue s) + credit s.
+  Definition potential (s : ST) : nat :=
+    match crashed s with None => qclose (queue s) + credit s | Some _ => 0 end.
 
   Lemma step_closes s e : closes (snd (STEP s e)) + potential (fst (STEP s e)) <= potential s.
   Proof.
-    unfold step, potential. destruct (crashed s).
-    - simpl. lia.
+    unfold step, potential. destruct (crashed s) eqn:Hc.
+    - simpl. rewrite Hc. lia.
     - generalize (handle_event_T e s). destruct (HE e s) as [[v s'] t]; cbn [okv val stt trc fst snd].
-      intros [H _]. lia.
+      intros (H & H' & C). destruct v; simpl in *.
+      + specialize (H eq_refl). destruct (crashed s'); lia.
+      + destruct (crashed s'); [lia | exfalso; apply C; reflexivity].
   Qed.
 
   Lemma run_closes evs : forall s, closes (snd (RUN s evs)) + potential (fst (RUN s evs)) <= potential s.
@@ -489,21 +497,10 @@ Section Base.
      the child and the environment do *)
   Theorem close_at_most_once r replies cs evs :
     child_closes (me cf) (snd (RUN (init r replies cs) evs)) <= 1.
-  Proof. generalize (run_closes evs (init r replies cs)). unfold potential, credit. simpl. fold closes. lia. Qed.
-
-  (* TCP close of an open tunnel: the close_sent flag is set, so a close has been dispatched *)
-  Lemma tcp_close_sets_flag s :
-    crashed s = None -> tunnel_state s = OPEN -> close_sent (fst (STEP s (EClose (me cf)))) = true.
   Proof.
-    intros Hc Ho. unfold step. rewrite Hc. unfold handle_event. rewrite conn_eqb_refl.
-    unfold bind at 1, get. rewrite Ho. cbn [tstate_eqb]. unfold bind at 1, receive_close, bind at 1, get.
-    destruct (close_sent s) eqn:Hs.
-    - cbn. exact Hs.
-    - unfold bind at 1, modify at 1.
-      set (s1 := set_close_sent R CS true s).
-      assert (Hmono : forall k e (x : ST), close_sent x = true -> close_sent (stt (ETC k e x)) = true).
-      { admit. }
-  Abort.
+    generalize (run_closes evs (init r replies cs)). fold (closes (snd (RUN (init r replies cs) evs))).
+    assert (H : potential (init r replies cs) = 1) by reflexivity. rewrite H. lia.
+  Qed.
 
   (* _handshake_finished replays the queued events in order, each once *)
   Theorem replay_in_order err s :
@@ -512,9 +509,8 @@ Section Base.
     (okv x = true -> replayed (trc x) = queue s /\ queue (stt x) = []) /\
     exists rest, queue s = replayed (trc x) ++ rest.
   Proof.
-    intros Hr. rewrite handshake_finished_eq. unfold bind at 1, modify at 1.
-    set (s1 := set_tunnel_state R CS (if err then CLOSED else OPEN) s).
-    generalize (finish_tail_T err s1). destruct (finish_tail err s1) as [[v s'] t]; cbn [okv val stt trc fst snd app].
+    intros Hr. rewrite handshake_finished_eq, bind_modify_eq. cbv zeta.
+    generalize (finish_tail_T err (set_tunnel_state R CS (if err then CLOSED else OPEN) s)).
     intros [_ H]. apply H. exact Hr.
   Qed.
 End Base.
